@@ -172,10 +172,16 @@ RECURSIVE InRange(_)
 InRange(f) == IF f = <<>> THEN {<<>>} ELSE {<<x>> \o r : x \in 0..(2^f[1] - 1), r \in InRange(Tail(f))}
 \* pushed out of range: whole multiples of 2^w added to wide fields, one bit fields scaled (zero stays zero)
 Pushed(f, v) == [i \in DOMAIN f |-> IF f[i] = 1 THEN v[i] * (1 + (i % 3)) ELSE v[i] + 2^f[i] * (1 + (i % 2))]
+\* pattern values for every format: all zero, all ones, top bit only, 1, just out of range (2^w: masked to 0, a one bit
+\* field stays true), all ones with an extra high bit, top bit with an extra high bit, alternating ones / zero.
+\* Formats wider than 12 bits get a subset (there are 61440 of them).
 Patterns(f) == LET n == Len(f) IN
+    IF Total(f) <= 12 THEN
     {[i \in 1..n |-> 0], [i \in 1..n |-> 2^f[i] - 1], [i \in 1..n |-> 2^(f[i] - 1)], [i \in 1..n |-> 1],
      [i \in 1..n |-> 2^f[i]], [i \in 1..n |-> 2^(f[i] + 1) - 1], [i \in 1..n |-> 2^f[i] + 2^(f[i] - 1)],
      [i \in 1..n |-> IF i % 2 = 1 THEN 2^f[i] - 1 ELSE 0], [i \in 1..n |-> IF i % 2 = 0 THEN 2^f[i] - 1 ELSE 0]}
+    ELSE
+    {[i \in 1..n |-> IF i % 2 = 1 THEN 2^(f[i] + 1) - 1 ELSE 2^f[i]], [i \in 1..n |-> IF i % 2 = 0 THEN 2^f[i] - 1 ELSE 2^(f[i] - 1) + 1]}
 PackVals(f) == Patterns(f) \cup (IF Total(f) <= EMax THEN InRange(f) ELSE {})
                            \cup (IF Total(f) <= OMax THEN {Pushed(f, v) : v \in InRange(f)} ELSE {})
 PackCases == UNION {{[k |-> "pack", fmt |-> f, vals |-> v] : v \in PackVals(f)} : f \in Formats(0, TMax)}
@@ -186,7 +192,7 @@ ByteStrings(n, S) == [1..n -> S]
 ProbeString(n) == [i \in 1..n |-> (151 * i + 76) % 256]
 UnpackBufs(f) == IF Total(f) <= UAll /\ Need(f) <= 1 THEN ByteStrings(Need(f), Byte)
                  ELSE IF Need(f) <= 2 /\ Total(f) <= 12 THEN ByteStrings(Need(f), {ProbeSeq[i] : i \in 1..PMax})
-                 ELSE {[i \in 1..Need(f) |-> x[(i % 2) + 1]] : x \in {<<255, 255>>, <<165, 90>>, <<90, 165>>, <<129, 1>>}}
+                 ELSE {[i \in 1..Need(f) |-> x[(i % 2) + 1]] : x \in {<<165, 219>>}}
 UnpackCases ==
     UNION {{[k |-> "unpack", fmt |-> f, b |-> b, size |-> None, rev |-> FALSE] : b \in UnpackBufs(f)} : f \in Formats(0, TMax)}
     \cup  \* explicit size (exact, larger), buffer longer than size (the rest is not read), reversed order
